@@ -89,9 +89,12 @@ impl Property for C15 {
             0u8..3,
             prop::array::uniform6(-3.0..3.0f64),
             prop_oneof![2 => Just(None), 1 => (prop::array::uniform6(prop_oneof![1 => Just(0.0), 1 => Just(1e-6), 3 => 0.01..2.0f64]), prop::array::uniform6(prop_oneof![1 => Just(0.0), 1 => Just(1e-6), 3 => 0.01..2.0f64])).prop_map(Some)],
-            prop_oneof![3 => Just(None), 1 => robot_sane(DofChoice::Six).prop_map(Some)],
+            other_robot(DofChoice::Six, false),
         )
-            .prop_map(|(robot, tool, base, j, eps, twist, window, other)| Case { robot, tool, base, j, eps, twist, window, other })
+            .prop_map(|(robot, tool, base, j, eps, twist, window, other)| {
+                let other = resolve_other(&robot, other, false);
+                Case { robot, tool, base, j, eps, twist, window, other }
+            })
             .boxed()
     }
     fn check(&self, c: &Case, ctx: &mut Ctx) -> Res {
@@ -122,9 +125,28 @@ impl Property for C15 {
             let _ = no_panic(|| Jacobian::new(&inner, &c.j, [1e-7, 1e-6, 1e-5][((c.eps + 1) % 3) as usize])).map_err(|m| viol!("no panic", "Jacobian::new (other step): {}", m))?;
             ctx.class("history: Jacobians of another robot / with another step at the same joints first");
         }
+        // When there is a call history, the earlier robot and the robot of the case occupy the same variable one after the other (a robot
+        // re-configured in place, or a new robot assigned to the same variable): the Jacobian must be that of the robot as it is now.
+        fn in_one_slot<K: rs_opw_kinematics::kinematic_traits::Kinematics>(first: Option<K>, second: K, j: &[f64; 6], eps: f64) -> Jacobian {
+            match first {
+                None => Jacobian::new(&second, j, eps),
+                Some(f) => {
+                    let mut slot = f;
+                    let _ = Jacobian::new(&slot, j, eps);
+                    slot = second;
+                    Jacobian::new(&slot, j, eps)
+                }
+            }
+        }
+        let earlier = c.other.as_ref().map(|o| opw(o));
         let jac = no_panic(|| match (&c.tool, &c.base) {
-            (None, None) => Jacobian::new(&inner, &c.j, eps),
-            (Some(t), None) => Jacobian::new(&Tool { robot: Arc::new(inner), tool: to_na(&t.iso()) }, &c.j, eps),
+            (None, None) => in_one_slot(earlier, inner, &c.j, eps),
+            (Some(t), None) => in_one_slot(
+                earlier.map(|e| Tool { robot: Arc::new(e), tool: to_na(&IsoSpec { t: [t.t[0] + 0.3, t.t[1], t.t[2] - 0.2], axis: t.axis, angle: t.angle + 0.4 }.iso()) }),
+                Tool { robot: Arc::new(inner), tool: to_na(&t.iso()) },
+                &c.j,
+                eps,
+            ),
             (None, Some(b)) => Jacobian::new(&Base { robot: Arc::new(inner), base: to_na(&b.iso()) }, &c.j, eps),
             (Some(t), Some(b)) => Jacobian::new(&Tool { robot: Arc::new(Base { robot: Arc::new(inner), base: to_na(&b.iso()) }), tool: to_na(&t.iso()) }, &c.j, eps),
         })
